@@ -263,11 +263,12 @@ def tagOf : GStatus → String
 
 structure GState where
   start : Pos
+  later : List Pos           -- one position per accepted move, oldest first
   moves : List Move          -- accepted moves, oldest first
   status : GStatus
 
-def posAfter (g : GState) : Pos := g.moves.foldl apply g.start
-def history (g : GState) : List Pos := (List.range (g.moves.length + 1)).map fun i => (g.moves.take i).foldl apply g.start
+def posAfter (g : GState) : Pos := (g.later.getLast?).getD g.start
+def history (g : GState) : List Pos := g.start :: g.later
 
 def sameKey (p q : Pos) : Bool :=
   allSq.all (fun s => p.board s == q.board s) && p.stm == q.stm &&
@@ -280,14 +281,15 @@ def afterMoveStatus (g : GState) : GStatus :=
   | .checkmated c => .checkmated c | .stalemate => .stalemate | .insufficient => .insufficient | .fifty => .fifty
   | .ongoing => if occurrences g ≥ 3 then .repetition else .ongoing
 
-def init (p : Pos) : GState := let g : GState := ⟨p, [], .ongoing⟩; { g with status := afterMoveStatus g }
+def init (p : Pos) : GState := let g : GState := ⟨p, [], [], .ongoing⟩; { g with status := afterMoveStatus g }
 
 def step (g : GState) (a : Action) : Except GErr GState :=
   match g.status with
   | .ongoing =>
     match a with
     | .move m => if legal (posAfter g) m then
-                   let g' := { g with moves := g.moves ++ [m] }; .ok { g' with status := afterMoveStatus g' }
+                   let g' := { g with moves := g.moves ++ [m], later := g.later ++ [apply (posAfter g) m] }
+                   .ok { g' with status := afterMoveStatus g' }
                  else .error .illegalAction
     | .offer c => .ok { g with status := .drawOffered c }
     | .resign c => .ok { g with status := .resigned c }
